@@ -196,13 +196,13 @@ Set_isdisjoint(Bucket* self, PyObject* other)
             }
         }
         contained = bucket_contains(self, v);
+        Py_DECREF(v);
         if (contained == -1) {
             goto err;
         }
         if (contained == 1) {
             result = Py_False;
         }
-        Py_DECREF(v);
     }
 
     if (result == NULL) {
